@@ -149,11 +149,12 @@ def directed_periodic(base):
 
 
 def finding_scenarios(base):
-    """the history of the open finding C02-periodic-runnow-blocked-behind-pending-signal, re-observed in every run:
+    """the history of finding C02-periodic-runnow-blocked-behind-pending-signal (fixed in 8334cb4), kept as a
+    regression schedule in every run:
     a run-now request claims a periodic job while its timer branch is under way (the instance runs by the timer and
     the request's signal stays pending), a second run-now request claims the job after the instance, the parent
-    context is cancelled: the second request blocks for ever on the full run channel with the job's state lock held,
-    and the goroutine blocks in finaliseJob on that lock"""
+    context is cancelled: before the fix the second request blocked for ever on the full run channel with the job's
+    state lock held, and the goroutine blocked in finaliseJob on that lock"""
     plan = [{"op": "timer", "who": "env"}, {"op": "step", "who": "g"}, {"op": "call", "who": "c1"}, {"op": "step", "who": "i1"}, {"op": "call", "who": "i1"}, {"op": "step", "who": "i1"}, {"op": "quiet", "who": "env"}, {"op": "step", "who": "g"}, {"op": "call", "who": "j1"}, {"op": "step", "who": "g"}, {"op": "step", "who": "c1"}, {"op": "quiet", "who": "env"}, {"op": "timer", "who": "env"}, {"op": "ctx", "who": "env"}, {"op": "step", "who": "g"}, {"op": "step", "who": "g"}, {"op": "step", "who": "g"}, {"op": "step", "who": "g"}, {"op": "resched", "who": "env"}, {"op": "probe", "who": "env"}, {"op": "step", "who": "g"}, {"op": "step", "who": "g"}, {"op": "timer", "who": "env"}, {"op": "step", "who": "g"}, {"op": "step", "who": "g"}, {"op": "step", "who": "j1"}, {"op": "quiet", "who": "env"}]
     return [{"sc": base, "mode": "gated", "periodic": True, "hold": False, "plan": plan, "instances": 3, "apis": ["i1", "j1"]}]
 
@@ -219,13 +220,13 @@ def run(tier):
         r = vf.tlc(PID, "mc-" + dev, "Scheduler", cfg, workers=2)
         if r["kind"] != "invariant":
             raise vf.Broken("the named deviation %s no longer violates the specification: vacuous model" % dev)
-    # the open finding C02-periodic-runnow-blocked-behind-pending-signal at design level: with NoStuckCaller demanded
-    # of the periodic protocol as the code implements it (blocking send under the state lock), TLC produces the
-    # counterexample (two run-now requests, context cancelled); the run must be rejected as long as the finding is open
+    # finding C02-periodic-runnow-blocked-behind-pending-signal (fixed in 8334cb4) at design level: the pinned code's
+    # blocking send under the state lock (named deviation BlockingSend) lets TLC produce the counterexample to
+    # NoStuckCaller (two run-now requests, context cancelled); the intended protocol (MC_Scheduler_periodic*.cfg, where
+    # NoStuckCaller is now demanded) passes.  Vacuity self-check: the deviation must be rejected.
     r = vf.tlc(PID, "mc-periodic-stuck", "Scheduler", "MC_Scheduler_periodic_stuck.cfg", workers=2)
     if r["kind"] != "temporal":
-        raise vf.Broken("MC_Scheduler_periodic_stuck.cfg no longer violates NoStuckCaller (%s %s): has the finding been repaired? "
-                        "then move NoStuckCaller into MC_Scheduler_periodic.cfg and close the finding" % (r["kind"], r["violated"]))
+        raise vf.Broken("the named deviation BlockingSend no longer violates NoStuckCaller: vacuous model (%s %s)" % (r["kind"], r["violated"]))
     if tier == "thorough":
         v.add_mc(vf.tlc_exhaustive(PID, "Scheduler", "MC_Scheduler_big.cfg", workers=8, timeout=1500))
         v.add_mc(vf.tlc_exhaustive(PID, "Scheduler", "MC_Scheduler_periodic_big.cfg", workers=8, timeout=1500))
